@@ -224,7 +224,10 @@ class C09(BaseCheck):
         if escs:
             a, b = r.choice(escs)
             if b - a == 2:
-                out.append((text[:a + 1] + r.choice('qx0 BFNRTa') + text[b:], 'bad-escape', 'escape letter replaced by an illegal one at %d' % a))
+                in_uri = any(ua <= a < ub for (ua, ub) in by.get('uri', []))
+                # besides letters illegal everywhere: escapes that are legal only in the OTHER kind of token
+                pool_ = 'qx0 BFNRTa' + ('"$' if in_uri else ':/?#[]@&=;`')
+                out.append((text[:a + 1] + r.choice(pool_) + text[b:], 'bad-escape', 'escape letter replaced by an illegal one at %d' % a))
             else:
                 out.append((text[:a + 3] + 'g' + text[a + 4:], 'bad-escape', 'non-hex digit in \\u escape at %d' % a))
         # an upper-cased name is only guaranteed-broken where nothing else may start with a capital:
@@ -426,9 +429,9 @@ class C09(BaseCheck):
                     return 'position', {'line': repr(line), 'col': repr(col), 'why': 'not integers'}
                 if (line, col) != (0, 0):
                     lines = gs.expandtabs().split('\n') if isinstance(gs, str) else ['']
-                    ok = 1 <= line <= len(lines) + 1
+                    ok = 1 <= line <= len(lines)          # a trailing newline already yields a last, empty line
                     if ok:
-                        ln = lines[line - 1] if line <= len(lines) else ''
+                        ln = lines[line - 1]
                         ok = 1 <= col <= len(ln) + 1
                     if not ok:
                         return 'position', {'line': line, 'col': col, 'nlines': len(lines),
